@@ -5,7 +5,7 @@ import json, os, shutil, glob, sys
 HERE = os.path.dirname(os.path.dirname(os.path.abspath(__file__)))
 matrix = json.load(open(os.path.join(HERE, 'seeded', 'matrix.json')))
 rows = []
-for rnd, incname in ((1, '_incoming'), (2, '_incoming2')):
+for rnd, incname in ((1, '_incoming'), (2, '_incoming2'), (3, '_incoming3')):
     INC = os.path.join(HERE, 'seeded', incname)
     if not os.path.exists(os.path.join(INC, 'validation.json')):
         continue
@@ -14,9 +14,9 @@ for rnd, incname in ((1, '_incoming'), (2, '_incoming2')):
         v = val[key]
         prop, k = key.split('/')
         src = os.path.join(INC, prop, k)
-        sid = '%s-%d' % (prop, int(k) + (3 if rnd == 2 else 0))
+        sid = '%s-%d' % (prop, int(k) + 3 * (rnd - 1))
         dst = os.path.join(HERE, 'seeded', sid)
-        mkey = key + ('#2' if rnd == 2 else '')
+        mkey = key + ('' if rnd == 1 else '#%d' % rnd)
         if not v.get('confirmed'):
             print('not confirmed, skipped:', incname, key)
             continue
@@ -35,7 +35,7 @@ for rnd, incname in ((1, '_incoming'), (2, '_incoming2')):
         caught = sorted(c for c, r in row.items() if isinstance(r, dict) and r.get('rc') == 1)
         own = prop in caught
         meta = {
-            'id': sid, 'property': prop, 'round': rnd, 'source': 'independent sub-agent given only the property text and a scratch worktree of /repo' + (' (second round: told which ideas were already used, asked for different ones)' if rnd == 2 else ''),
+            'id': sid, 'property': prop, 'round': rnd, 'source': 'independent sub-agent given only the property text and a scratch worktree of /repo' + (' (round %d: told which ideas were already used, asked for different ones)' % rnd if rnd > 1 else ''),
             'summary': am.get('summary'), 'needs_to_manifest': am.get('needs_to_manifest'), 'files_touched': am.get('files_touched'),
             'demonstration': demo, 'how_to_run_demo': am.get('how_to_run_demo'),
             'confirmed_here': {'what_was_run': 'tools/validate_seeds.py in a scratch worktree: git apply; cargo test --workspace --no-fail-fast --offline; demonstration with and without the patch',
